@@ -29,6 +29,13 @@ def bitsIO : SetIO (BitSet 8) :=
     disp := fun b =>
       "{" ++ ",".intercalate (((List.range 8).filter fun i => b.bits.getD i false).map toString) ++ "}" }
 
+def bits2OfMask (m : Nat) : BitSet 2 := ⟨(List.range 2).map fun i => (m >>> i) % 2 == 1⟩
+
+def bits2IO : SetIO (BitSet 2) :=
+  { parse := fun s => s.trimAscii.toString.toNat?.map bits2OfMask,
+    disp := fun b =>
+      "{" ++ ",".intercalate (((List.range 2).filter fun i => b.bits.getD i false).map toString) ++ "}" }
+
 variable {S : Type}
 
 def dispTerm (io : SetIO S) (t : Term S) : String := Term.display io.disp t
